@@ -30,6 +30,14 @@ def cell(seedval):
     return pe.Obs([seedval + 0.01 * (np.round(rs.normal(size=len(IDL)) * 64) / 64)], ['e'], idl=[IDL])
 
 
+def twin(x):
+    """another observable with exactly the central value of x (when floating point allows) but other fluctuations"""
+    y = pe.Obs([x.value + np.asarray(x.deltas['e'])[::-1]], ['e'], idl=[IDL])
+    if y.value != x.value:
+        y = y + (x.value - y.value)
+    return y
+
+
 def build_corr(d):
     """d = {'N':n, 'vals': [None | value | [[..]]], 'cplx': bool}"""
     content = []
@@ -39,7 +47,13 @@ def build_corr(d):
         elif d['N'] == 1:
             content.append(pe.CObs(cell(v), cell(v * 0.5 + 0.1)) if d.get('cplx') else cell(v))
         else:
-            content.append(np.array([[cell(x) for x in row] for row in v], dtype=object))
+            mat = np.array([[cell(x) for x in row] for row in v], dtype=object)
+            if d.get('twin'):
+                # transposed entries with identical central values and different fluctuations: symmetric in value only
+                for i in range(d['N']):
+                    for j in range(i + 1, d['N']):
+                        mat[j, i] = twin(mat[i, j])
+            content.append(mat)
     c = pe.Corr(content)
     if d.get('prange'):
         c.prange = list(d['prange'])
@@ -519,6 +533,8 @@ def gen_case(ctx):
     else:
         a = gen_corr(rng)
     T, N = len(a['vals']), a['N']
+    if m in ('matrix_symmetric', 'item', 'trace') and rng.random() < 0.35:
+        a['twin'] = True
     case = {'kind': 'index', 'm': m, 'a': a, 'args': {}}
     if m == 'roll':
         case['args'] = {'dt': rng.choice([0, 1, -1, 2, T, -T, T + 1, -(T + 2), 3 * T + 1, rng.randint(-40, 40)])}
